@@ -526,6 +526,8 @@ func extractSuffixAndAnnotations(component string, propertyComponent bool, input
 		res = res[:len(res)-1]
 		pos := strings.Index(strippedInput, res)
 		suffix := ""
+		// Position of suffix in component header
+		suffixPos := len(component)
 
 		if propertyComponent {
 			// If component is property, find first position of property indicator
@@ -543,6 +545,7 @@ func extractSuffixAndAnnotations(component string, propertyComponent bool, input
 			if propIdx > leadIdx {
 				// Extract difference between index in original component and new identifier
 				suffix = strippedInput[leadIdx : leadIdx+(propIdx-leadIdx)]
+				suffixPos = leadIdx
 			}
 		} else {
 			// Component identifier is suppressed if suffix is found
@@ -550,10 +553,10 @@ func extractSuffixAndAnnotations(component string, propertyComponent bool, input
 			suffix = strippedInput[len(component):pos]
 		}
 
-		// Replace annotations
-		extractedContent := strings.ReplaceAll(strippedInput, res, "")
-		// Replace suffices
-		extractedContent = strings.ReplaceAll(extractedContent, suffix, "")
+		// Remove annotations and suffix from the component header only
+		// (the component content may contain the same character sequences)
+		extractedContent := strippedInput[:pos] + strippedInput[pos+len(res):]
+		extractedContent = extractedContent[:suffixPos] + extractedContent[suffixPos+len(suffix):]
 		Println("Extracted content:", extractedContent)
 		// Return suffix and annotations
 		return suffix, res, extractedContent, tree.ParsingError{ErrorCode: tree.PARSING_NO_ERROR}
